@@ -266,8 +266,11 @@ PROPS = {
                       "Validation: real child processes are ABORTED at every (point, occurrence) of a victim write and of a forced rotation (hook handler), the directory and "
                       "symlink are compared with the model's crashDir, a new logger is started on it and the run continued and compared; the sequence of point names of "
                       "an operation is compared with the model's trace.",
-        "level_note": "Theorems: no cleanup; crash points inside cleanup/compression (original next to unfinished/finished .gz) are covered by the kill runs + correspondence "
-                      "only (the model's crashDir includes them). Trusted: data handed to write(2) survives process death; rename is atomic; abort() at a hook point = kill "
+        "level_note": "History theorems: no cleanup. The cleanup pass itself is proved crash-safe on its own (Props/C11Cleanup: at EVERY recorded point of a pass over a "
+                      "directory in which no infix occurs twice, every file within the keep limits is completely on disk, plain or compressed, and nothing outside the listing "
+                      "is touched; the premise is C07's reachable_ifxDistinct; without it the statement is false - example exDup); how a history reaches such a pass and what "
+                      "the restarted logger does with an original next to an unfinished .gz is covered by the kill runs + correspondence (the model's crashDir includes those "
+                      "points; cleanup-backlog histories kill the pass between two compressions). Trusted: data handed to write(2) survives process death; rename is atomic; abort() at a hook point = kill "
                       "at that point. Kills at arbitrary instants (between hook points inside one syscall) are not distinguishable from the adjacent points.",
         "correspondence": "FlwTrace.crashDir/stepT vs child processes killed at hook points, then restart on the same directory",
         "rule": "6 histories (quick) x {victim write, forced rotation} x 17 points x occurrences 0..2 (cleanup/compress points) x restart append on/off; direct mode, all namings, "
